@@ -33,7 +33,10 @@
 // without before-hook-creation: that is a hook failure like any other); whether hooks of the same
 // post-event still run after a failed post-hook (the property only forbids it after a pre-hook);
 // ops that are refused before doing anything (error, no storage write, no hook or resource request).
-// Atomic is off (C03 covers it). CRD hooks are not generated.
+// Atomic is only used together with DisableHooks (two history shapes): such an op is run once with
+// its readiness wait failing, and the whole op including its compensating rollback / uninstall is
+// judged by hook-created-with-hooks-disabled; what atomic restores is C03's business. CRD hooks are
+// not generated.
 package c12
 
 import (
@@ -65,7 +68,7 @@ func init() {
 	core.Register(&core.Prop{
 		ID:    "C12",
 		Level: "fault_enumeration",
-		Rule: "per hook-set seed: two chart versions with independently generated hook sets (0-4 hooks per event, multi-event hooks, weights incl. negative/equal/non-numeric, all 8 delete-policy subsets, 4 kinds, name order != file order) and one of 5 history shapes over install/upgrade/rollback/uninstall (some ops with hooks disabled), on memory and secrets storage; one fault-free run plus one run per single hook failure (each hook create rejected once, each hook readiness failing once) of every op; all ops of every run are judged. " +
+		Rule: "per hook-set seed: two chart versions with independently generated hook sets (0-4 hooks per event, multi-event hooks, weights incl. negative/equal/non-numeric, all 8 delete-policy subsets, 4 kinds, name order != file order) and one of 7 history shapes over install/upgrade/rollback/uninstall (some ops with hooks disabled, two shapes with atomic+no-hooks ops that are additionally run with a failing readiness wait), on memory and secrets storage; one fault-free run plus one run per single hook failure (each hook create rejected once, each hook readiness failing once) of every op; all ops of every run are judged. " +
 			"distinct_nontrivial counts distinct (op kind, event, number of hooks in the event, failure kind, policy set of the failing hook, leftover-present) tuples among judged events that ran at least one hook.",
 		Assumptions: []string{
 			"the simulated API server applies requests like a real API server; its request log and the scripted waiter share one logical clock",
@@ -229,7 +232,8 @@ func mkSetup(d caseData) setup {
 	s.charts[1] = genChart(rng, [][3]string{{"ConfigMap", "cm-a", "c1"}, {"ConfigMap", "cm-b", "c1"}})
 	in := func(c int) env.Op { return env.Op{Kind: "install", Chart: c} }
 	up := func(c int) env.Op { return env.Op{Kind: "upgrade", Chart: c} }
-	switch x := rng.Intn(5); x {
+	atomicQuiet := func(o env.Op) env.Op { o.Atomic, o.NoHooks = true, true; return o }
+	switch x := rng.Intn(7); x {
 	case 0:
 		s.shape, s.ops = "install-upgrade-rollback-uninstall", []env.Op{in(0), up(1), {Kind: "rollback", ToRev: 1}, {Kind: "uninstall"}}
 	case 1:
@@ -240,6 +244,12 @@ func mkSetup(d caseData) setup {
 		s.shape, s.ops = "install-rollback-rollback-uninstall", []env.Op{in(0), up(1), {Kind: "rollback", ToRev: 1}, {Kind: "rollback", ToRev: 2}, {Kind: "uninstall"}}
 	case 4:
 		s.shape, s.ops = "install-uninstall-install-upgrade", []env.Op{in(1), {Kind: "uninstall"}, in(1), up(0)}
+	case 5:
+		// the atomic no-hooks upgrade gets a failing readiness wait: its compensating rollback must not run hooks
+		s.shape, s.ops = "install-upgrade(atomic,nohooks)-upgrade-uninstall", []env.Op{in(0), atomicQuiet(up(1)), up(0), {Kind: "uninstall"}}
+	case 6:
+		// likewise the compensating uninstall of a failed atomic no-hooks install must not run delete hooks
+		s.shape, s.ops = "install(atomic,nohooks)-install-upgrade(atomic,nohooks)-rollback", []env.Op{atomicQuiet(in(0)), in(0), atomicQuiet(up(1)), {Kind: "rollback", ToRev: 1}}
 	}
 	// hooks disabled on some ops
 	if rng.Intn(3) == 0 {
@@ -718,6 +728,8 @@ func (s *setup) runHistory(res *core.Result, d caseData, p plan, verbose bool) (
 				}, Nth: p.J, Code: 500, Once: true})
 			case "ready":
 				w.Script.FailWatchNth, w.Script.FailAgent = p.J, agent
+			case "wait":
+				w.Script.FailWaitNth, w.Script.FailAgent = 1, agent
 			}
 		}
 		before, _ := w.Ledger(relName)
@@ -754,6 +766,20 @@ func (s *setup) runHistory(res *core.Result, d caseData, p plan, verbose bool) (
 		for _, rec := range after {
 			if _, ok := model[rec.Revision]; !ok && rec.Revision == maxB+1 && srcOK {
 				model[rec.Revision] = src
+			}
+			if _, ok := model[rec.Revision]; !ok && rec.Revision == maxB+2 && op.Kind == "upgrade" && op.Atomic {
+				// revision created by the compensating rollback: it carries the hooks of the revision it restored
+				var good *env.Rec
+				for i := range before {
+					if st := before[i].Status; (st == "deployed" || st == "superseded") && (good == nil || before[i].Revision > good.Revision) {
+						good = &before[i]
+					}
+				}
+				if good != nil {
+					if gs, ok := model[good.Revision]; ok {
+						model[rec.Revision] = gs
+					}
+				}
 			}
 		}
 		log := w.Sim.Log()
@@ -796,7 +822,10 @@ func (s *setup) runHistory(res *core.Result, d caseData, p plan, verbose bool) (
 		creates = append(creates, len(t.hookPosts))
 		watches = append(watches, t.watchCalls)
 		if p.Op == i {
-			if (fl != nil && fl.Fired() > 0) || p.Kind == "ready" {
+			if p.Kind == "wait" && op.NoHooks && op.Atomic && r.Err != nil {
+				res.Stat("failed_atomic_ops_with_hooks_disabled_checked:"+op.Kind, 1)
+			}
+			if (fl != nil && fl.Fired() > 0) || p.Kind != "create" {
 				res.Stat("hook_failures_injected:"+p.Kind, 1)
 			}
 		}
@@ -844,6 +873,19 @@ func run(c core.Case, verbose bool) core.Result {
 			}
 		}
 	}
+	// atomic ops with hooks disabled: one run each with the readiness wait failing, so that the
+	// compensating rollback / uninstall runs (it must not create any hook either)
+	for i, op := range s.ops {
+		if !(op.Atomic && op.NoHooks) {
+			continue
+		}
+		p := plan{Op: i, Kind: "wait", J: 1}
+		if d.Only != "" && d.Only != p.ID() {
+			continue
+		}
+		s.runHistory(&res, d, p, verbose)
+		nplans++
+	}
 	res.Stat("single_hook_failure_runs", int64(nplans))
 	nh := 0
 	for _, cs := range s.charts {
@@ -859,7 +901,7 @@ func run(c core.Case, verbose bool) core.Result {
 
 func post(a *core.Agg) string {
 	var miss []string
-	for _, k := range []string{"hook_creates_ordered", "hook_completions_observed", "delete_policy_decisions_checked", "leftovers_met_by_before_hook_creation", "failed_pre_hooks_gate_checked", "failed_post_hooks_checked", "ops_with_hooks_disabled_checked", "hook_failures_judged:create", "hook_failures_judged:ready", "hook_object_end_states_compared"} {
+	for _, k := range []string{"hook_creates_ordered", "hook_completions_observed", "delete_policy_decisions_checked", "leftovers_met_by_before_hook_creation", "failed_pre_hooks_gate_checked", "failed_post_hooks_checked", "ops_with_hooks_disabled_checked", "failed_atomic_ops_with_hooks_disabled_checked:upgrade", "failed_atomic_ops_with_hooks_disabled_checked:install", "hook_failures_judged:create", "hook_failures_judged:ready", "hook_object_end_states_compared"} {
 		if a.Stats[k] == 0 {
 			miss = append(miss, k)
 		}
